@@ -252,11 +252,27 @@ def check_contract(ctx, cls):
         ctx.sample({'may_raise': k, 'sites': kinds[k][:4]})
 
 
-def dialect_table(ctx, tree, init):
-    """the dict literal SqlalchemyRender.__init__ looks the dialect name up in (`X[dialect_name]`, X a local or a module-level constant)"""
-    ctx.need(len(init.args.args) >= 2, 'SqlalchemyRender.__init__ takes no dialect name')
-    param = init.args.args[1].arg
+def dialect_table(ctx, tree, init, _param=None, _depth=0):
+    """the dict literal SqlalchemyRender.__init__ looks the dialect name up in (`X[dialect_name]`, X a local or a module-level constant) - in __init__ itself or in
+    a module-level helper / method it hands the name to"""
+    if _param is None:
+        ctx.need(len(init.args.args) >= 2, 'SqlalchemyRender.__init__ takes no dialect name')
+    param = _param or init.args.args[1].arg
     found = []
+    if _depth < 3:
+        cls_ = next((c for c in tree.body if isinstance(c, ast.ClassDef) and init in c.body), None)
+        callees = {n.name: (n, 0) for n in tree.body if isinstance(n, ast.FunctionDef)}
+        if cls_ is not None:
+            callees.update({'self.' + m.name: (m, 1) for m in cls_.body if isinstance(m, ast.FunctionDef)})
+        for n in ast.walk(init):
+            if isinstance(n, ast.Call) and norm(n.func) in callees and callees[norm(n.func)][0] is not init:
+                fn_, off = callees[norm(n.func)]
+                for i, a in enumerate(n.args):
+                    if isinstance(a, ast.Name) and a.id == param and i + off < len(fn_.args.args):
+                        try:
+                            found.append(dialect_table(ctx, tree, fn_, fn_.args.args[i + off].arg, _depth + 1))
+                        except AnalysisError:
+                            pass
     for n in ast.walk(init):
         if isinstance(n, ast.Subscript) and isinstance(n.slice, ast.Name) and n.slice.id == param and isinstance(n.value, ast.Name):
             for scope in (init, tree):
